@@ -3,7 +3,7 @@
 //@ module src/cff/outline/charstring.rs
 //@ strength bounded(per operator: one argument-count variant each, operands small integers (i8) so that every f32 sum is exact; start point symbolic)
 //@ note each harness drives the REAL operator with a recording sink and compares with the path the Type 2 specification (Adobe TN#5177) assigns to it
-//@ unverified the remaining operators and argument-count variants (hvcurveto/vhcurveto tails, rcurveline, rlinecurve, hflex, hflex1, flex), width prefix detection, CFF2 blend
+//@ unverified the remaining operators and argument-count variants (hvcurveto/vhcurveto beyond 9 arguments, hflex, hflex1, flex, vvcurveto), width prefix detection, CFF2 blend
 use pathfinder_geometry::line_segment::LineSegment2F;
 use pathfinder_geometry::vector::Vector2F;
 
@@ -115,4 +115,123 @@ fn op_arg_counts() {
     let a6: [i8; 6] = kani::any();
     let (r, rec, _, _) = run(&a6, 0, 0, |p, s| p.parse_hh_curve_to(s));
     assert!(r.is_err() && rec.n == 0);
+}
+
+// ---- hvcurveto / vhcurveto (TN#5177 4.1): curves alternate between "starts horizontal, ends vertical" and
+//      "starts vertical, ends horizontal"; an odd trailing argument belongs to the LAST curve and is the delta of the
+//      coordinate that curve would otherwise leave unchanged at its end point
+fn alt_curves_spec<const N: usize>(a: &[i8; N], x0: i8, y0: i8, first_horizontal: bool) -> ([Cmd; 6], usize, i32, i32) {
+    let v = |i: usize| a[i] as i32;
+    let (mut x, mut y) = (x0 as i32, y0 as i32);
+    let mut out = [Cmd::None; 6];
+    let mut n = 0;
+    let curves = N / 4;
+    let mut horizontal = first_horizontal;
+    let mut k = 0;
+    while k < curves {
+        let b = 4 * k;
+        let last = k + 1 == curves;
+        let extra = if last && N % 4 == 1 { v(N - 1) } else { 0 };
+        let (x1, y1, x2, y2, x3, y3);
+        if horizontal {
+            x1 = x + v(b); y1 = y;
+            x2 = x1 + v(b + 1); y2 = y1 + v(b + 2);
+            y3 = y2 + v(b + 3); x3 = x2 + extra;
+        } else {
+            x1 = x; y1 = y + v(b);
+            x2 = x1 + v(b + 1); y2 = y1 + v(b + 2);
+            x3 = x2 + v(b + 3); y3 = y2 + extra;
+        }
+        out[n] = Cmd::C(x1 as f32, y1 as f32, x2 as f32, y2 as f32, x3 as f32, y3 as f32);
+        n += 1;
+        x = x3; y = y3;
+        horizontal = !horizontal;
+        k += 1;
+    }
+    (out, n, x, y)
+}
+
+fn alt_case<const N: usize>(first_horizontal: bool) {
+    let a: [i8; N] = kani::any();
+    let mut i = 0;
+    while i < N { kani::assume(a[i] >= -4 && a[i] <= 4); i += 1; }
+    let (x0, y0): (i8, i8) = (kani::any(), kani::any());
+    let (r, rec, x, y) = if first_horizontal { run(&a, x0, y0, |p, s| p.parse_hv_curve_to(s)) } else { run(&a, x0, y0, |p, s| p.parse_vh_curve_to(s)) };
+    assert!(r.is_ok());
+    let (want, n, wx, wy) = alt_curves_spec(&a, x0, y0, first_horizontal);
+    assert!(rec.n == n, "one curve per four arguments");
+    let mut i = 0;
+    while i < n { assert!(rec.cmds[i] == want[i], "curve control and end points per TN#5177"); i += 1; }
+    assert!(x == wx as f32 && y == wy as f32, "current point after the operator");
+}
+
+//@ harness op_hvcurveto_4_5 kind=bounded:4_and_5_operands_in_-4..4 fns=CharStringParser::parse_hv_curve_to timeout=900
+#[kani::proof]
+#[kani::unwind(8)]
+fn op_hvcurveto_4_5() { alt_case::<4>(true); alt_case::<5>(true); }
+
+//@ harness op_hvcurveto_8_9 kind=bounded:8_and_9_operands_in_-4..4 fns=CharStringParser::parse_hv_curve_to timeout=1200
+#[kani::proof]
+#[kani::unwind(12)]
+fn op_hvcurveto_8_9() { alt_case::<8>(true); alt_case::<9>(true); }
+
+//@ harness op_vhcurveto_4_5 kind=bounded:4_and_5_operands_in_-4..4 fns=CharStringParser::parse_vh_curve_to timeout=900
+#[kani::proof]
+#[kani::unwind(8)]
+fn op_vhcurveto_4_5() { alt_case::<4>(false); alt_case::<5>(false); }
+
+//@ harness op_vhcurveto_8_9 kind=bounded:8_and_9_operands_in_-4..4 fns=CharStringParser::parse_vh_curve_to timeout=1200
+#[kani::proof]
+#[kani::unwind(12)]
+fn op_vhcurveto_8_9() { alt_case::<8>(false); alt_case::<9>(false); }
+
+//@ harness op_hlineto_vlineto kind=bounded:3operands fns=CharStringParser::parse_horizontal_line_to,CharStringParser::parse_vertical_line_to timeout=600
+#[kani::proof]
+#[kani::unwind(6)]
+fn op_hlineto_vlineto() {
+    // hlineto dx1 {dya dxb}* : alternating horizontal / vertical lines starting horizontal; vlineto starts vertical
+    let a: [i8; 3] = kani::any();
+    let (x0, y0): (i8, i8) = (kani::any(), kani::any());
+    let v = |i: usize| a[i] as i32;
+    let (sx, sy) = (x0 as i32, y0 as i32);
+    let (r, rec, x, y) = run(&a, x0, y0, |p, s| p.parse_horizontal_line_to(s));
+    assert!(r.is_ok() && rec.n == 3);
+    assert!(rec.cmds[0] == Cmd::L((sx + v(0)) as f32, sy as f32) && rec.cmds[1] == Cmd::L((sx + v(0)) as f32, (sy + v(1)) as f32)
+        && rec.cmds[2] == Cmd::L((sx + v(0) + v(2)) as f32, (sy + v(1)) as f32), "hlineto alternates starting horizontal");
+    assert!(x == (sx + v(0) + v(2)) as f32 && y == (sy + v(1)) as f32);
+    let (r, rec, x, y) = run(&a, x0, y0, |p, s| p.parse_vertical_line_to(s));
+    assert!(r.is_ok() && rec.n == 3);
+    assert!(rec.cmds[0] == Cmd::L(sx as f32, (sy + v(0)) as f32) && rec.cmds[1] == Cmd::L((sx + v(1)) as f32, (sy + v(0)) as f32)
+        && rec.cmds[2] == Cmd::L((sx + v(1)) as f32, (sy + v(0) + v(2)) as f32), "vlineto alternates starting vertical");
+    assert!(x == (sx + v(1)) as f32 && y == (sy + v(0) + v(2)) as f32);
+}
+
+//@ harness op_rrcurveto_rcurveline kind=bounded:6_and_8_operands fns=CharStringParser::parse_curve_to,CharStringParser::parse_curve_line,CharStringParser::parse_line_curve timeout=900
+#[kani::proof]
+#[kani::unwind(10)]
+fn op_rrcurveto_rcurveline() {
+    let a: [i8; 8] = kani::any();
+    let mut i = 0;
+    while i < 8 { kani::assume(a[i] >= -8 && a[i] <= 8); i += 1; }
+    let (x0, y0): (i8, i8) = (kani::any(), kani::any());
+    let v = |i: usize| a[i] as i32;
+    let (sx, sy) = (x0 as i32, y0 as i32);
+    // rrcurveto {dxa dya dxb dyb dxc dyc}+
+    let a6 = [a[0], a[1], a[2], a[3], a[4], a[5]];
+    let (x1, y1) = (sx + v(0), sy + v(1)); let (x2, y2) = (x1 + v(2), y1 + v(3)); let (x3, y3) = (x2 + v(4), y2 + v(5));
+    let (r, rec, x, y) = run(&a6, x0, y0, |p, s| p.parse_curve_to(s));
+    assert!(r.is_ok() && rec.n == 1 && rec.cmds[0] == Cmd::C(x1 as f32, y1 as f32, x2 as f32, y2 as f32, x3 as f32, y3 as f32), "rrcurveto");
+    assert!(x == x3 as f32 && y == y3 as f32);
+    // rcurveline {dxa dya dxb dyb dxc dyc}+ dxd dyd : curves, then one line
+    let (r, rec, x, y) = run(&a, x0, y0, |p, s| p.parse_curve_line(s));
+    assert!(r.is_ok() && rec.n == 2 && rec.cmds[0] == Cmd::C(x1 as f32, y1 as f32, x2 as f32, y2 as f32, x3 as f32, y3 as f32)
+        && rec.cmds[1] == Cmd::L((x3 + v(6)) as f32, (y3 + v(7)) as f32), "rcurveline");
+    assert!(x == (x3 + v(6)) as f32 && y == (y3 + v(7)) as f32);
+    // rlinecurve {dxa dya}+ dxb dyb dxc dyc dxd dyd : lines, then one curve
+    let (lx, ly) = (sx + v(0), sy + v(1));
+    let (c1x, c1y) = (lx + v(2), ly + v(3)); let (c2x, c2y) = (c1x + v(4), c1y + v(5)); let (ex, ey) = (c2x + v(6), c2y + v(7));
+    let (r, rec, x, y) = run(&a, x0, y0, |p, s| p.parse_line_curve(s));
+    assert!(r.is_ok() && rec.n == 2 && rec.cmds[0] == Cmd::L(lx as f32, ly as f32)
+        && rec.cmds[1] == Cmd::C(c1x as f32, c1y as f32, c2x as f32, c2y as f32, ex as f32, ey as f32), "rlinecurve");
+    assert!(x == ex as f32 && y == ey as f32);
 }
